@@ -1124,6 +1124,92 @@ def _dropout(func, args, kwargs):
     return out
 
 
+@handles("searchsorted")
+def _searchsorted(func, args, kwargs):
+    """torch.searchsorted(sorted_sequence, values, right=False): per value the number of sequence entries < value (<= value for right=True),
+    along the last dimension of the sequence (leading dimensions of the two arguments agree); a symbolic integer per value"""
+    seq = args[0]; vals = args[1]
+    right = bool(kwargs.get("right", False)) or kwargs.get("side", "left") == "right"
+    ps = apply1(toreal, P(seq))
+    pv = apply1(toreal, P(vals)) if isinstance(vals, torch.Tensor) else np.array(toreal(lift(vals)), dtype=object)
+    if ps.ndim == 1:
+        out = np.empty(pv.shape, dtype=object)
+        for idx in np.ndindex(*pv.shape):
+            out[idx] = t_sum_int([(z3.If(s_ <= pv[idx], z3.IntVal(1), z3.IntVal(0)) if right else z3.If(s_ < pv[idx], z3.IntVal(1), z3.IntVal(0))) for s_ in ps])
+    else:
+        if tuple(ps.shape[:-1]) != tuple(pv.shape[:-1]):
+            raise RuntimeError("torch.searchsorted(): boundaries tensor should have same dimension as input except for the last")
+        out = np.empty(pv.shape, dtype=object)
+        for idx in np.ndindex(*pv.shape):
+            row = ps[idx[:-1]]
+            out[idx] = t_sum_int([(z3.If(s_ <= pv[idx], z3.IntVal(1), z3.IntVal(0)) if right else z3.If(s_ < pv[idx], z3.IntVal(1), z3.IntVal(0))) for s_ in row])
+    dt = torch.int32 if kwargs.get("out_int32", False) else torch.int64
+    return Sym.make(out, dt)
+
+
+def t_sum_int(ts):
+    tot = z3.IntVal(0)
+    for t in ts:
+        tot = z3.simplify(tot + t) if z3.is_int_value(z3.simplify(t)) and z3.is_int_value(tot) else tot + t
+    return tot
+
+
+@handles("layer_norm")
+def _layer_norm(func, args, kwargs):
+    """F.layer_norm(input, normalized_shape, weight, bias, eps): statistics over the trailing `normalized_shape` dimensions of each item
+    (biased variance), then the elementwise affine map"""
+    from .ops import s_sqrt, s_div
+    x = args[0]
+    nshape = tuple(getarg(args, kwargs, 1, "normalized_shape"))
+    w = getarg(args, kwargs, 2, "weight", None); b = getarg(args, kwargs, 3, "bias", None); eps = getarg(args, kwargs, 4, "eps", 1e-5)
+    p = apply1(toreal, P(x))
+    k = len(nshape)
+    lead = p.shape[:p.ndim - k]
+    out = np.empty(p.shape, dtype=object)
+    pw = apply1(toreal, P(w)) if w is not None else None
+    pb = apply1(toreal, P(b)) if b is not None else None
+    e = toreal(lift(eps))
+    for idx in np.ndindex(*lead):
+        blk = p[idx]
+        flat = list(np.asarray(blk, dtype=object).reshape(-1))
+        n = len(flat)
+        mean = T.div(t_sum(flat), rv(n))
+        var = T.div(t_sum([T.mul(T.sub(v, mean), T.sub(v, mean)) for v in flat]), rv(n))
+        sd = s_sqrt(T.add(var, e))
+        for j in np.ndindex(*nshape):
+            v = s_div(T.sub(blk[j], mean), sd)
+            if pw is not None: v = T.mul(v, pw[j])
+            if pb is not None: v = T.add(v, pb[j])
+            out[idx + j] = v
+    return like(x, out)
+
+
+@handles("argmin", "argmax")
+def _argminmax(func, args, kwargs):
+    """index of the first extremal element (whole tensor, or along dim): decided by forking on the comparisons"""
+    a = args[0]
+    dim = getarg(args, kwargs, 1, "dim", None); keepdim = getarg(args, kwargs, 2, "keepdim", False)
+    is_min = func_name(func) == "argmin"
+    p = P(a)
+    conv = toreal if a.dtype.is_floating_point else toint
+
+    def pick(vals):
+        best = 0
+        for i in range(1, len(vals)):
+            c = (conv(vals[i]) < conv(vals[best])) if is_min else (conv(vals[i]) > conv(vals[best]))
+            if decide_bool(c): best = i
+        return best
+    if dim is None:
+        return torch.tensor(pick(list(p.reshape(-1))))
+    d = norm_dim(dim, p.ndim)
+    q = np.moveaxis(p, d, -1)
+    out = np.empty(q.shape[:-1], dtype=np.int64)
+    for idx in np.ndindex(*q.shape[:-1]):
+        out[idx] = pick(list(q[idx]))
+    r = torch.from_numpy(np.ascontiguousarray(out))
+    return r.unsqueeze(d) if keepdim else r
+
+
 @handles("batch_norm")
 def _batch_norm(func, args, kwargs):
     x = args[0]
